@@ -74,7 +74,7 @@ Mkdir(p) ==
 \* IsStale() called from TryLock
 Stale1(p) ==
     /\ alive[p] /\ pc[p] = "stale1"
-    /\ MDecide(p, LooksStale)
+    /\ MDecide(p, LooksStale, FALSE)
     /\ IF ~LooksStale
        THEN Goto(p, IF p \in LockProcs THEN "mkdir" ELSE "idle")    \* ErrLocked: Lock() polls, TryLock returns
        ELSE IF p \in OverrideProcs THEN Goto(p, "stale2") ELSE Goto(p, "idle")   \* ErrStaleLock
@@ -83,7 +83,7 @@ Stale1(p) ==
 \* IsStale() called from ReleaseIfStale, then (as coded) the separate removal steps
 Stale2(p) ==
     /\ alive[p] /\ pc[p] = "stale2" /\ "SplitTakeover" \in Deviations
-    /\ MDecide(p, LooksStale)
+    /\ MDecide(p, LooksStale, TRUE)
     /\ IF LooksStale
        THEN Goto(p, "u_scan") /\ takeover' = [takeover EXCEPT ![p] = TRUE] /\ retries' = [retries EXCEPT ![p] = 0]
        ELSE Goto(p, "mkdir") /\ UNCHANGED <<takeover, retries>>
@@ -95,6 +95,7 @@ AtomicTakeover(p) ==
     /\ IF LooksStale
        THEN /\ dir' = 0 /\ hb' = FALSE /\ dirStale' = FALSE /\ hbStale' = FALSE
             /\ decidedGen' = [decidedGen EXCEPT ![p] = dir] /\ sawStale' = [sawStale EXCEPT ![p] = TRUE]
+            /\ rechecked' = [rechecked EXCEPT ![p] = TRUE]
             /\ lifeSince' = [lifeSince EXCEPT ![p] = FALSE]
             /\ UNCHANGED <<gen, creator, holds, hbOn, alive, acquiring, ownGen, relStartGen, stalled, viol>>
        ELSE UNCHANGED mvars
@@ -111,7 +112,7 @@ Chtimes(p) ==
     /\ holds' = [holds EXCEPT ![p] = TRUE] /\ hbOn' = [hbOn EXCEPT ![p] = TRUE]
     /\ acquiring' = [acquiring EXCEPT ![p] = 0]
     /\ lifeSince' = (IF dir # 0 THEN [q \in Procs |-> TRUE] ELSE lifeSince)
-    /\ UNCHANGED <<dir, hb, hbStale, gen, creator, alive, ownGen, decidedGen, sawStale, relStartGen, stalled>>
+    /\ UNCHANGED <<dir, hb, hbStale, gen, creator, alive, ownGen, decidedGen, sawStale, rechecked, relStartGen, stalled>>
     /\ Goto(p, "hold") /\ hbpc' = [hbpc EXCEPT ![p] = "open"]
     /\ UNCHANGED <<takeover, retries, cycles, deaths, ticks>> /\ Log(p, "Chtimes")
 
@@ -178,7 +179,7 @@ HbChtimes(p) ==
     /\ alive[p] /\ hbpc[p] = "chtimes"
     /\ hbStale' = (IF hb THEN FALSE ELSE hbStale)
     /\ lifeSince' = (IF hb THEN [q \in Procs |-> TRUE] ELSE lifeSince)
-    /\ UNCHANGED <<dir, hb, dirStale, gen, creator, holds, hbOn, alive, acquiring, ownGen, decidedGen, sawStale, relStartGen, stalled, viol>>
+    /\ UNCHANGED <<dir, hb, dirStale, gen, creator, holds, hbOn, alive, acquiring, ownGen, decidedGen, sawStale, rechecked, relStartGen, stalled, viol>>
     /\ hbpc' = [hbpc EXCEPT ![p] = "sleep"]
     /\ UNCHANGED <<pc, takeover, retries, cycles, deaths, ticks>> /\ Log(p, "HbChtimes")
 
